@@ -115,7 +115,7 @@ func c07Ref(a, b *genetics.Genome) (e, d int, w float64) {
 
 type c07Case struct {
 	MaskA, PatA, MaskB, PatB, Coeff int
-	Prefix, AttrA, AttrB             int
+	Prefix, AttrA, AttrB            int
 }
 
 func c07Opts(ci int, linear bool) *neat.Options {
